@@ -1,6 +1,7 @@
 package checks
 
 import (
+	"encoding/json"
 	"fmt"
 	"sort"
 	"strings"
@@ -176,7 +177,7 @@ func c07Classify(res *pbt.Result, tree *ref.RouteNode, ls map[string]string, wan
 		if w.GroupByAll {
 			class("groupby-all")
 		}
-		var inhGroupBy, inhTimer, sawAll, explicitEmpty bool
+		var inhGroupBy, inhGW, inhGI, inhRI, sawAll, explicitEmpty bool
 		n := tree
 		for d := 0; ; d++ {
 			last := d == len(w.Path)
@@ -204,10 +205,10 @@ func c07Classify(res *pbt.Result, tree *ref.RouteNode, ls map[string]string, wan
 				explicitEmpty = len(gb) == 0
 				inhGroupBy = !last
 			}
-			if n.GroupWait != nil || n.GroupInterval != nil || n.RepeatInterval != nil {
-				if !last {
-					inhTimer = true
-				}
+			if !last {
+				inhGW = inhGW || n.GroupWait != nil
+				inhGI = inhGI || n.GroupInterval != nil
+				inhRI = inhRI || n.RepeatInterval != nil
 			}
 			if last {
 				if len(n.Children) > 0 {
@@ -216,7 +217,8 @@ func c07Classify(res *pbt.Result, tree *ref.RouteNode, ls map[string]string, wan
 				if n.Receiver == nil {
 					class("inherited-receiver")
 				}
-				if (inhGroupBy && n.GroupBy == nil) || (inhTimer && (n.GroupWait == nil || n.GroupInterval == nil || n.RepeatInterval == nil)) {
+				// an explicitly written ancestor setting is in effect at the chosen node
+				if (inhGroupBy && n.GroupBy == nil) || (inhGW && n.GroupWait == nil) || (inhGI && n.GroupInterval == nil) || (inhRI && n.RepeatInterval == nil) {
 					class("inherited-option")
 				}
 				if len(n.Mute) > 0 || len(n.Active) > 0 {
@@ -241,6 +243,14 @@ func c07ExecRoute(sc c07Scenario) (res pbt.Result) {
 	if err != nil {
 		res.Add(pbt.V("load", "a documented-valid configuration was not accepted: %v\n%s", err, text))
 		return res
+	}
+	// replay fidelity: the scenario must survive its JSON form unchanged
+	if b, err := json.Marshal(sc); err == nil {
+		var back c07Scenario
+		if err := json.Unmarshal(b, &back); err != nil || ref.ConfigYAML(back.Tree, back.Receivers, back.Intervals) != text {
+			res.Add(pbt.V("generator", "scenario does not round-trip through JSON (%v)", err))
+			return res
+		}
 	}
 	defined := map[string]bool{}
 	for _, r := range sc.Receivers {
